@@ -259,13 +259,14 @@ pub fn fit_with_once<F: Float + std::fmt::Debug, D: Distance<F> + std::fmt::Debu
     init: &Init,
     c0_layout: Layout,
     tol: f64,
+    n_runs: usize,
 ) -> Option<Fitted<F, D>> {
     use linfa::traits::FitWith;
     use linfa::ParamGuard;
     use linfa_clustering::IncrKMeansError;
     limit_pool();
     let li = linfa_init::<F>(init, &pr.xf_, pr.p, c0_layout);
-    let params = KMeans::params_with(k, rng, dist).tolerance(F::cast(tol)).init_method(li).check().ok()?;
+    let params = KMeans::params_with(k, rng, dist).n_runs(n_runs).tolerance(F::cast(tol)).init_method(li).check().ok()?;
     let r = obs.call("fit_with", || {
         let res = if pr.recs.strided {
             params.fit_with(None, &DatasetBase::from(pr.recs.view()))
